@@ -28,7 +28,7 @@ TECHNIQUE = (
 RULE = (
     "Programs: every statement tree of the C13 grammar (text, % try/% except, % for with loop, def declared+called "
     "[flags subset of buffered/filter/cached/decorator; forms ${d()}, ${capture(d)}, <%call> with content; top-level or "
-    "nested], <%text filter>, <%include>, two-level inherit, ${CB(caller)}) in two families: F1 = weight<=W1 where "
+    "nested], <%call> of a Python function under supports_caller, <%text filter>, <%include>, two-level inherit, ${CB(caller)}) in two families: F1 = weight<=W1 where "
     "weight = nodes + def modifiers (each flag, nested, capture); F2 = nodes<=W2 with every flag subset at no extra "
     "cost (F2 minus F1 is run). A probe is inserted before/after every statement and in every argument list, filter, "
     "decorator (before/after the call) and cached body. Case = (program, include_error_handler on/off, set of armed "
@@ -48,8 +48,8 @@ ASSUMPTIONS = [
     "the design's bound W=5/7 over the full flag set is infeasible (1.1e6 programs at modifier-weight 5): the bounds below are what is enumerated completely",
 ]
 BOUNDS = {
-    "quick": {"W1_modifier_weight": 3, "W2_nodes_all_flags": 2, "WT_wrapped_nodes": 2, "WP_pairs": 2, "WF_error_page_all_points": 2, "for_iterations": 2},
-    "thorough": {"W1_modifier_weight": 4, "W2_nodes_all_flags": 2, "W3_nodes_single_flags": 3, "WT_wrapped_nodes": 2, "WP_pairs": 3, "WF_error_page_all_points": 3, "for_iterations": 2},
+    "quick": {"W1_modifier_weight": 3, "W2_nodes_all_flags": 2, "W2_root_body": "one statement", "WT_wrapped_nodes": 2, "WT_flags": "<=1 per def", "WP_pairs": 2, "WF_error_page_all_points": 2, "for_iterations": 2},
+    "thorough": {"W1_modifier_weight": 4, "W2_nodes_all_flags": 2, "W3_nodes_single_flags": 3, "WT_wrapped_nodes": 2, "WT_flags": "every subset", "WP_pairs": 3, "WF_error_page_all_points": 3, "for_iterations": 2},
 }
 LEVEL_TEXT = (
     "Every program of the stated grammar within the bounds is rendered by the real code once per crash point and handler; output after the "
@@ -81,7 +81,7 @@ def letters(seed):
 def modweight(x):
     """nodes + def modifiers (the F1 weight)"""
     if isinstance(x, tuple):
-        if x and isinstance(x[0], str) and x[0] in ("text", "try", "for", "call", "textf", "inc", "inh", "cb"):
+        if x and isinstance(x[0], str) and x[0] in ir.NODE_KINDS:
             w = 1
             if x[0] == "call":
                 w += len(x[2]) + (x[3] == "nested") + (x[1] == "cap")
@@ -114,7 +114,7 @@ def singleflag(x):
     return True
 
 
-WRAPPABLE = ("call", "for", "inc", "inh", "textf")
+WRAPPABLE = ("call", "for", "inc", "inh", "textf", "py")
 
 
 def wraps(block):
@@ -144,7 +144,7 @@ def skeletons(fam, w, tier):
     b = BOUNDS[tier]
     w1 = b["W1_modifier_weight"]
     w2 = b["W2_nodes_all_flags"]
-    single_root = False
+    single_root = tier == "quick"  # F2 in the quick tier: programs whose root body is one statement
 
     def in_f1(p):
         return modweight(p) <= w1
@@ -162,11 +162,10 @@ def skeletons(fam, w, tier):
     if fam == "F3":
         return [p for p in grammar("F3").programs(w) if not in_f1(p)]
     if fam == "FT":
-        src = grammar("F2").programs(w)
+        # quick: wraps of the programs with <=1 flag per def; thorough: of the programs with every flag subset
+        src = grammar("F3" if tier == "quick" else "F2").programs(w)
         out = []
         for p in src:
-            if single_root and len(p) != 1:
-                continue
             for v in wraps(p):
                 if not (in_f1(v) or in_f2(v) or in_f3(v)):
                     out.append(v)
